@@ -360,6 +360,11 @@ func (c *Ctx) ruleLimbInvariant(cfg string) *limbResult {
 			Detail: fmt.Sprintf("%d failing instance(s); first: %s", a.bad, a.first.Detail)})
 	}
 	c.Extra["limb_invariant_"+cfg] = res.box.String()
+	c.Extra["machine_obligations_"+cfg] = res.nObl
+	prevN, _ := c.Extra["aggregated_obligations"].(int)
+	prevD, _ := c.Extra["aggregated_discharged"].(int)
+	c.Extra["aggregated_obligations"] = prevN + res.nObl
+	c.Extra["aggregated_discharged"] = prevD + res.nObl - nBad
 	return res
 }
 
